@@ -12,7 +12,7 @@ PRINTF_LIKE = {"printf", "fprintf", "sprintf", "snprintf", "puts", "fputs", "ffl
 
 
 from .heap import HeapMixin
-from .stream import StreamMixin, View
+from .stream import StreamMixin, View, ByteOff
 
 
 class Exec(HeapMixin, StreamMixin, Engine):
@@ -80,6 +80,11 @@ class Exec(HeapMixin, StreamMixin, Engine):
         if base.obj is None:
             raise Unsupported("arithmetic on NULL")
         idx = as_int(idx)
+        if base.path and isinstance(base.path[-1], ByteOff):
+            ci = const_int(idx)
+            if ci is None:
+                raise Unsupported("symbolic byte offset into a struct")
+            return Ptr(base.obj, base.path[:-1] + (ByteOff(base.path[-1].off + ci),), base.null)
         if base.path and isinstance(base.path[-1], View):
             vw = base.path[-1]
             return Ptr(base.obj, base.path[:-1] + (View(vw.ctype, simp(vw.pos + idx * self.sizeof(vw.ctype))),), base.null)
@@ -241,6 +246,15 @@ class Exec(HeapMixin, StreamMixin, Engine):
 
     def cast(self, st, v, ck, to, frm, n):
         if ck == "BitCast" and isinstance(v, Ptr) and v.obj is not None and to.kind == "ptr":
+            if v.path and isinstance(v.path[-1], ByteOff):
+                if (to.to.kind == "int" and to.to.bits == 8) or to.to.kind == "void":
+                    return v
+                rp, _ft = self.resolve_byteoff(st, v, to.to)
+                return rp
+            if to.to.kind == "int" and to.to.bits == 8:
+                bv = self.byte_view(st, v)
+                if bv is not None:
+                    return bv
             vv = self.view_cast(st, v, to.to)
             if vv is not None:
                 return vv
@@ -833,6 +847,12 @@ class Exec(HeapMixin, StreamMixin, Engine):
         oid = st.ghost.get(key)
         if oid is not None:
             return st.mem.get(oid)
+        ov = getattr(self, "global_overrides", {}).get(name)
+        if ov is not None:
+            v = ov(self, st)
+            obj = st.mem.add(v)
+            st.ghost[key] = obj.id
+            return obj
         decl = None
         for t in self.tus:
             if name in t.globals:
